@@ -378,6 +378,11 @@ func (b *wb) attestations(id int, holder int, force int) []int {
 		d1 := b.addToken(AToken{Iss: acct2, Aud: holder, Caps: []ACap{{Can: "other/thing", With: fmt.Sprintf("@%d", acct2), Nb: [][2]int{}}}, Exp: b.exp(), Signer: -1, Intact: true, AlgOk: false})
 		out = append(out, d1, mk(w.Authority, w.AuthorityKey, holder, authDid, [][2]int{{0, d1}}, nil))
 		b.attFirst = true
+	case 17: // a proper attestation that is never valid yet: not-before within a few years of the largest value
+		a := mk(w.Authority, w.AuthorityKey, holder, authDid, [][2]int{{0, id}}, nil)
+		w.Tokens[a].Nbf = 1<<63 - 1 - r.Intn(3)*31536000*40
+		w.Tokens[a].Exp = nil
+		out = append(out, a)
 	case 16: // issued by the service's bare key, on that key's did:key: for a did:web service another principal and another resource
 		out = append(out, mk(w.AuthorityKey, w.AuthorityKey, holder, fmt.Sprintf("@%d", w.AuthorityKey), [][2]int{{0, id}}, nil))
 	case 15: // an expired attestation by the authority first, then a stranger's attestation of this very token
